@@ -263,7 +263,9 @@ FNAMES = ['ff', 'gg', 'hh']
 def lint_model(r):
     """a jump-level model rich in lint situations: user labels, duplicate labels, dangling jumps, duplicate functions and
     arguments, unused variables/arguments, pointless statements (no nested functions: see NESTED_PROBE)"""
-    labels = r.choice([['L1', 'L2', 'L3'], ['L1', 'L2', 'L3', 'M', 'N'], ['L1', 'L2']])
+    # (some pools use the KEY NAMES of the statement schema as label names: a label is a string, a statement value elsewhere is an object)
+    labels = r.choice([['L1', 'L2', 'L3'], ['L1', 'L2', 'L3', 'M', 'N'], ['L1', 'L2'], ['expr', 'jump', 'label', 'exprDone', 'return'],
+                       ['L1', 'name', 'function', 'include', 'args']])
     fns = []
     for _ in range(r.randint(0, 4)):
         name = r.choice(FNAMES)
